@@ -1052,4 +1052,30 @@ theorem ts_vregx_all_warmup (sqrt : Rat → Rat) (sh : Shape) (xs ys : List (Opt
     simp only [List.getElem?_map, List.getElem?_range hi, Option.map_some])
   rw [ho, hm h]
 
+/-! ### the index-driven closures of cmp.rs: their `min_periods` expression (no clamp of an explicit value; the window is clamped to the series length first) -/
+theorem ts_vmin_minPeriods (len w : Nat) (mp : Option Nat) (h : 1 ≤ len) :
+    Gen.ts_vmin.minPeriods len w mp = C03.cmpMp mp w len := by
+  have : ¬ len = 0 := by omega
+  simp [Gen.ts_vmin.minPeriods, C03.cmpMp, this]
+
+theorem ts_vmax_minPeriods (len w : Nat) (mp : Option Nat) (h : 1 ≤ len) :
+    Gen.ts_vmax.minPeriods len w mp = C03.cmpMp mp w len := by
+  have : ¬ len = 0 := by omega
+  simp [Gen.ts_vmax.minPeriods, C03.cmpMp, this]
+
+theorem ts_vargmin_minPeriods (len w : Nat) (mp : Option Nat) (h : 1 ≤ len) :
+    Gen.ts_vargmin.minPeriods len w mp = C03.cmpMp mp w len := by
+  have : ¬ len = 0 := by omega
+  simp [Gen.ts_vargmin.minPeriods, C03.cmpMp, this]
+
+theorem ts_vargmax_minPeriods (len w : Nat) (mp : Option Nat) (h : 1 ≤ len) :
+    Gen.ts_vargmax.minPeriods len w mp = C03.cmpMp mp w len := by
+  have : ¬ len = 0 := by omega
+  simp [Gen.ts_vargmax.minPeriods, C03.cmpMp, this]
+
+theorem ts_vrank_minPeriods (len w : Nat) (mp : Option Nat) (h : 1 ≤ len) :
+    Gen.ts_vrank.minPeriods len w mp = C03.cmpMp mp w len := by
+  have : ¬ len = 0 := by omega
+  simp [Gen.ts_vrank.minPeriods, C03.cmpMp, this]
+
 end Tv.C05Gen
